@@ -1568,6 +1568,29 @@ theorem net_resume_keys_agree {A : Attacker} {cfg : HsCfg} (hs : ResumeSetting A
     rw [e1, e2, e3, e4, hi2, hr2]
     exact hagree
 
+/-- **C01, tamper clause, as one statement**: in either setting (full or resumed handshake), for
+every schedule with at most one attacker-made message, each end ends with no session or the
+session of the untouched run (for a resumed handshake: up to the unauthenticated peer session id),
+and whenever both ends hold a session they hold the same directional keys. -/
+theorem C01_network {A : Attacker} {cfg : HsCfg} (hs : FullSetting A cfg ⊕' ResumeSetting A cfg)
+    (ops : List NetOp) (hsched : Sched A cfg (Net.start cfg) 1 ops) :
+    (match hs with
+      | .inl _ => OutcomeFull cfg ((Net.start cfg).run cfg ops)
+      | .inr h => OutcomeRes h ((Net.start cfg).run cfg ops)) ∧
+    ∀ sI sR rI rR, ((Net.start cfg).run cfg ops).i.result = some (sI, rI) →
+      ((Net.start cfg).run cfg ops).r.result = some (sR, rR) → sR.i2r = sI.i2r ∧ sR.r2i = sI.r2i := by
+  cases hs with
+  | inl h =>
+    refine ⟨net_single_mutation_full h ops hsched, ?_⟩
+    intro sI sR rI rR hI hR
+    have := net_full_keys_agree h ops hsched sI sR rI rR hI hR
+    exact ⟨this.1, this.2.1⟩
+  | inr h =>
+    refine ⟨net_single_mutation_resume h ops hsched, ?_⟩
+    intro sI sR rI rR hI hR
+    have := net_resume_keys_agree h ops hsched sI sR rI rR hI hR
+    exact ⟨this.1, this.2.1⟩
+
 /-! ## Non-vacuity of the network theorems -/
 
 def exCfg : HsCfg :=
